@@ -193,10 +193,10 @@ pub fn exec(song: &mut Song, tokens: &Vec<Token>) -> bool {
                 trk!(song).octave = value_range(0, trk!(song).octave + t.value_i, 10);
             },
             TokenType::VelocityRel => {
-                trk!(song).velocity = value_range(0, trk!(song).velocity + (song.v_add * t.value_i), 127);
+                trk!(song).velocity = value_range(0, trk!(song).velocity.saturating_add(song.v_add.saturating_mul(t.value_i)), 127);
             },
             TokenType::QLenRel => {
-                trk!(song).qlen = trk!(song).qlen + (song.q_add * t.value_i);
+                trk!(song).qlen = trk!(song).qlen.saturating_add(song.q_add.saturating_mul(t.value_i));
             },
             TokenType::OctaveOnce => {
                 let before = trk!(song).octave;
@@ -391,7 +391,7 @@ pub fn exec(song: &mut Song, tokens: &Vec<Token>) -> bool {
                     },
                     0x02 => { // Master Balance (0x02) 14bit
                         let mut val = if data.len() >= 1 { data[0].to_i() } else { 0 };
-                        val += 8192;
+                        val = val.saturating_add(8192);
                         let val_lsb = (val & 0x7F) as isize;
                         let val_msb = ((val >> 7) & 0x7F) as isize;
                         event = Some(Event::sysex(
@@ -1073,7 +1073,7 @@ fn exec_sys_function(song: &mut Song, t: &Token) -> bool {
         if arg_count >= 2 {
             let min = args[0].to_i();
             let max = args[1].to_i();
-            let range = max - min + 1;
+            let range = max.saturating_sub(min).saturating_add(1);
             let rnd = if range == 0 { min } else { (song.rand() & 0x7FFFFFFF) as isize % range + min };
             song.stack.push(SValue::from_i(rnd));
         } else if arg_count == 1 {
@@ -1388,14 +1388,14 @@ fn var_extract(val: &SValue, song: &mut Song) -> SValue {
 fn tempo_change_a_to_b(song: &mut Song, a: isize, b: isize, len: isize) {
     let step = (song.timebase * 4) / 16;
     let step_cnt = len / step;
-    let width = b - a;
+    let width = b.saturating_sub(a);
     let timepos = trk!(song).timepos;
     for i in 0..step_cnt {
         let v = (a as f32) + (width as f32) * (i as f32 / step_cnt as f32);
         tempo_change(song, v as isize);
-        trk!(song).timepos += step;
+        trk!(song).timepos = trk!(song).timepos.saturating_add(step);
     }
-    trk!(song).timepos = timepos + len;
+    trk!(song).timepos = timepos.saturating_add(len);
     tempo_change(song, b);
     trk!(song).timepos = timepos;
 }
@@ -1444,7 +1444,7 @@ fn exec_div(song: &mut Song, t: &Token) {
         let trk = &mut song.tracks[song.cur_track];
         let div_len = calc_length(len_s, song.timebase, trk.length);
         let note_len = if cnt > 0 { div_len / cnt } else { 0 };
-        timepos_end = trk.timepos + div_len;
+        timepos_end = trk.timepos.saturating_add(div_len);
         length_org = trk.length;
         trk.length = note_len;
     }
@@ -1491,7 +1491,7 @@ fn exec_harmony(song: &mut Song, t: &Token, flag_begin: bool) {
             }
             trk!(song).events.push(e);
         }
-        trk!(song).timepos = song.flags.harmony_time + note_len;
+        trk!(song).timepos = song.flags.harmony_time.saturating_add(note_len);
         return;
     }
 }
@@ -1511,13 +1511,15 @@ fn exec_get_time(song: &mut Song, t: &Token, cmd: &str) -> isize{
         runtime_error(song, &format!("[{}] needs 1 or 3 arguments", cmd));
         return 0;
     }
-    let mes = args[0].to_i() + song.flags.measure_shift;
+    let mes = args[0].to_i().saturating_add(song.flags.measure_shift);
     let beat = args[1].to_i();
     let tick = args[2].to_i();
 
     // calc
     let base = song.timebase * 4 / song.timesig_deno;
-    let total = (mes - 1) * (base * song.timesig_frac) + (beat - 1) * base + tick;
+    // (saturating: extreme arguments must not overflow)
+    let total = mes.saturating_sub(1).saturating_mul(base * song.timesig_frac)
+        .saturating_add(beat.saturating_sub(1).saturating_mul(base)).saturating_add(tick);
     total
 }
 
@@ -1686,7 +1688,7 @@ fn exec_note(song: &mut Song, t: &Token) {
     if trk!(song).o_rand > 0 { // octave randomize
         let r = song.calc_rand_value(0, trk!(song).o_rand);
         if r != 0 {
-            note.no += r * 12;
+            note.no = note.no.saturating_add(r.saturating_mul(12));
         }
     }
     let v = if trk!(song).v_rand > 0 {
@@ -1715,9 +1717,9 @@ fn exec_note(song: &mut Song, t: &Token) {
     // check range
     let v = value_range(0, v, 127);
     // event
-    let event = Event::note(timepos + t, trk!(song).channel, value_range(0, note.no, 127), notelen_real, v);
+    let event = Event::note(timepos.saturating_add(t), trk!(song).channel, value_range(0, note.no, 127), notelen_real, v);
     // println!("- {}: note(no={},len={},qlen={},v={},t={},o={})", trk.timepos, noteno, notelen_real, qlen, v, t, o);
-    trk!(song).timepos += notelen;
+    trk!(song).timepos = trk!(song).timepos.saturating_add(notelen);
 
     // octave_once?
     if song.flags.octave_once != 0 {
@@ -1762,7 +1764,7 @@ fn tie_mode_port(song: &mut Song) {
         // same note no
         if last_note.v1 == next_event.v1 {
             // add note length
-            let time_pos = next_event.time + next_event.v2;
+            let time_pos = next_event.time.saturating_add(next_event.v2);
             last_note.v2 = time_pos - last_note.time;
             continue;
         }
@@ -1784,14 +1786,14 @@ fn tie_mode_port(song: &mut Song) {
         let bend_to = 0;
         let mut last_v = 0;
         for i in 0..tie_value {
-            let timepos = next_event.time - tie_value + i;
+            let timepos = next_event.time.saturating_sub(tie_value).saturating_add(i);
             let v = ((bend_from - bend_to) as f32 * (i as f32 / tie_value as f32)) as isize;
             if last_v == v { continue; }
             last_v = v;
             let bend_event = Event::pitch_bend(timepos, trk!(song).channel, value_range(0, v + 8192, 16383));
             trk!(song).events.push(bend_event);
         }
-        last_note.v2 = next_event.time - last_note.time;
+        last_note.v2 = next_event.time.saturating_sub(last_note.time);
         trk!(song).events.push(last_note);
         let bend_event_end = Event::pitch_bend(next_event.time, trk!(song).channel, bend_to + 8192);
         trk!(song).events.push(bend_event_end);
@@ -1815,14 +1817,14 @@ fn tie_mode_bend(song: &mut Song) {
     // set bend 0
     let bend0 = Event::pitch_bend(last_note.time, trk!(song).channel, 8192);
     trk!(song).events.push(bend0);
-    let mut lastpos = last_note.time + last_note.v2;
+    let mut lastpos = last_note.time.saturating_add(last_note.v2);
     while trk!(song).tie_notes.len() > 0 {
         let next_event = trk!(song).tie_notes.remove(0);
-        lastpos = next_event.time + next_event.v2;
+        lastpos = next_event.time.saturating_add(next_event.v2);
         // same note no
         if last_note.v1 == next_event.v1 {
             // add note length
-            let time_pos = next_event.time + next_event.v2;
+            let time_pos = next_event.time.saturating_add(next_event.v2);
             last_note.v2 = time_pos - last_note.time;
             continue;
         }
@@ -1838,7 +1840,7 @@ fn tie_mode_bend(song: &mut Song) {
         last_note = next_event;
     }
     // write begin note
-    begin_note.v2 = lastpos - begin_note.time;
+    begin_note.v2 = lastpos.saturating_sub(begin_note.time);
     trk!(song).events.push(begin_note);
     // reset bend
     let bend_end = Event::pitch_bend(lastpos, trk!(song).channel, 8192);
@@ -1857,13 +1859,13 @@ fn tie_mode_gate(song: &mut Song) {
         // same note no
         if last_note.v1 == next_event.v1 {
             // add note length
-            let time_pos = next_event.time + next_event.v2;
+            let time_pos = next_event.time.saturating_add(next_event.v2);
             last_note.v2 = time_pos - last_note.time;
             continue;
         }
         // different note no
         if tie_value == 0 {
-            last_note.v2 = next_event.time - last_note.time;
+            last_note.v2 = next_event.time.saturating_sub(last_note.time);
         } else {
             last_note.v2 = tie_value;
         }
@@ -1875,10 +1877,10 @@ fn tie_mode_gate(song: &mut Song) {
 /// alpeggio mode
 fn tie_mode_alpe(song: &mut Song) {
     let last_note = &trk!(song).tie_notes[trk!(song).tie_notes.len() - 1];
-    let last_pos = last_note.time + last_note.v2;
+    let last_pos = last_note.time.saturating_add(last_note.v2);
     let tie_notes = trk!(song).tie_notes.clone();
     for mut event in tie_notes.into_iter() {
-        event.v2 = last_pos - event.time;
+        event.v2 = last_pos.saturating_sub(event.time);
         trk!(song).events.push(event);
     }
     trk!(song).tie_notes.clear();
@@ -1971,7 +1973,7 @@ fn exec_note_n(song: &mut Song, t: &Token) {
     // range
     let v = value_range(0, v, 127);
     let event = Event::note(
-        trk!(song).timepos + t,
+        trk!(song).timepos.saturating_add(t),
         trk!(song).channel,
         value_range(0, data_note_no.saturating_add(track_key).saturating_add(key_shift), 127),
         notelen_real,
@@ -1984,14 +1986,14 @@ fn exec_note_n(song: &mut Song, t: &Token) {
     trk!(song).write_cc_on_note_wave(start_pos);
     // write event
     trk!(song).events.push(event);
-    trk!(song).timepos += notelen;
+    trk!(song).timepos = trk!(song).timepos.saturating_add(notelen);
 }
 
 fn exec_rest(song: &mut Song, t: &Token) {
     let trk = &mut song.tracks[song.cur_track];
     let data_note_len = t.data[0].to_s();
     let notelen = calc_length(&data_note_len, song.timebase, trk.length);
-    trk.timepos += notelen * t.value_i;
+    trk.timepos = trk.timepos.saturating_add(notelen.saturating_mul(t.value_i));
 }
 
 fn exec_voice(song: &mut Song, t: &Token) {
